@@ -5,7 +5,8 @@ package main
 type InventoryResult struct {
 	Name       string
 	Items      []string
-	Violations []string
+	Violations []string       // unkeyed violations
+	Keyed      []InvViolation // violations identified by a stable key (can be listed as known findings: "inventory:<name>:<key>")
 }
 
 type inventoryFn func(w *World) InventoryResult
